@@ -503,7 +503,7 @@ fn subs() -> Vec<Box<dyn DynSub>> {
     vec![Box::new(Sub {
         name: "grid",
         strategy: csv_case,
-        cases: (6000, 150_000),
+        cases: (30000, 600_000),
         check: check_csv,
         max_shrink_iters: 1500,
     })]
